@@ -92,3 +92,86 @@ def corpus_jobs(seed, per_logic, tag, level, *, orders=2, models=0, max_steps=15
                      'mode': mode or ('step' if n % 2 else 'build'), 'level': level, 'models': models,
                      'max_steps': max_steps, 'order': (n // 4) % orders, 'timeout_s': timeout_s})
     return jobs
+
+
+# --------------------------------------------------------------------------
+# vocabulary of an encoded argument (mirrors Models.tla Vocab) and search bounds
+# --------------------------------------------------------------------------
+MODAL_OPS = ('Possibility', 'Necessity')
+NVALS = {}
+for _L in ALL_LOGICS:
+    _b = _L
+    for _p in ('S4', 'S5', 'K', 'T'):
+        if _L.startswith(_p) and _L != _p and _L not in ('K3', 'K3W', 'K3WQ'):
+            _b = _L[len(_p):]
+            break
+    NVALS[_L] = 2 if _b in ('CPL', 'CFOL', 'K', 'D', 'T', 'S4', 'S5') else 4 if _b == 'FDE' else 3
+
+
+def vocab(arg, modal, quantified):
+    atoms, preds, consts, opaques = set(), set(), set(), set()
+    flags = {'modal': False, 'quant': False, 'bad': False}
+
+    def consts_of(s):
+        if s[0] == 'P':
+            return {tuple(p) for p in s[2] if p[0] == 'c'}
+        if s[0] == 'Q':
+            return consts_of(s[3])
+        if s[0] == 'O':
+            return set().union(*[consts_of(x) for x in s[2]])
+        return set()
+
+    def opaque(s):
+        return (s[0] == 'Q' and not quantified) or (s[0] == 'O' and s[1] in MODAL_OPS and not modal)
+
+    def walk(s, bound):
+        consts.update(consts_of(s))
+        if opaque(s):
+            opaques.add(json.dumps(s))
+            if bound:
+                flags['bad'] = True
+            return
+        if s[0] == 'A':
+            atoms.add(tuple(s))
+        elif s[0] == 'P':
+            preds.add(tuple(s[1]))
+        elif s[0] == 'Q':
+            flags['quant'] = True
+            walk(s[3], True)
+        else:
+            if s[1] in MODAL_OPS:
+                flags['modal'] = True
+            for x in s[2]:
+                walk(x, bound)
+
+    for s in list(arg['prems']) + [arg['conc']]:
+        walk(s, False)
+    return dict(atoms=atoms, preds=preds, consts=consts, opaques=opaques, **flags)
+
+
+def search_bounds(logic, arg, budget):
+    """-> list of (nw, extra) to search, [] if nothing fits the budget or the argument is unsupported"""
+    modal, quant = LOGIC_META[logic]
+    v = vocab(arg, modal, quant)
+    if v['bad']:
+        return []
+    nv = NVALS[logic]
+
+    def models(nw, nc):
+        cells = nw * (len(v['atoms']) + len(v['opaques'])) + nw * sum(nc ** p[2] for p in v['preds'])
+        frames = 2 ** (nw * nw) if v['modal'] else 1
+        return frames * nv ** cells
+
+    named = len(v['consts'])
+    emin = 1 if (named == 0 and (v['quant'] or v['preds'])) else 0
+    emax = 2 if v['quant'] else emin
+    out = []
+    for extra in range(emin, emax + 1):
+        nc = named + extra
+        best = None
+        for nw in ((1, 2, 3) if v['modal'] else (1,)):
+            if models(nw, nc) <= budget:
+                best = nw
+        if best is not None:
+            out.append((best, extra))
+    return out
